@@ -372,19 +372,18 @@ stream_harness! {
     }
 }
 
-/// the documented length assertion: any VRF output length other than 32 / 64 panics
-/// bound: slice of symbolic length 0..=70 other than 32 and 64; real Blake2b never reached; unwind 4
-#[kani::proof]
-#[kani::unwind(4)]
-#[kani::should_panic]
-#[kani::stub(std::fmt::format, crate::stubs::fmt_format_stub)]
-fn c10_q_nonce_rolling_bad_len_panics() {
-    let prev: [u8; 32] = kani::any();
-    let vrf: [u8; 70] = kani::any();
-    let n: usize = kani::any();
-    kani::assume(n <= 70 && n != 32 && n != 64);
-    let r = generate_rolling_nonce(Hash::new(prev), &vrf[..n]);
-    core::mem::forget(r);
+stream_harness! {
+    /// the documented length assertion: a VRF output length other than 32 / 64 panics (should_panic: the assertion is reached and no other check fails)
+    /// bound: slice of symbolic length 0..=70 other than 32 and 64; probe stubs (without them goto-instrument needs > 48 GB for the linked-in real Blake2b); unwind 4
+    #[kani::should_panic]
+    fn c10_q_nonce_rolling_bad_len_panics() {
+        let prev: [u8; 32] = kani::any();
+        let vrf: [u8; 70] = kani::any();
+        let n: usize = kani::any();
+        kani::assume(n <= 70 && n != 32 && n != 64);
+        let r = generate_rolling_nonce(Hash::new(prev), &vrf[..n]);
+        core::mem::forget(r);
+    }
 }
 
 stream_harness! {
